@@ -5,7 +5,7 @@
 From Coq Require Import List String Bool Permutation.
 Import ListNotations.
 From DI Require Import Syntax Tokens Bounds Param Subs Superset Substitute Spec RustSem Group Validate IMap Hygiene Dispatch Examples ExamplesGroup.
-From DI.proofs Require Import Basics SupersetSound SupersetExact SupersetComplete SupersetWf SubstituteProofs BoundsProofs DispatchProofs GroupProofs ParamProofs ParamAlpha RustSemProofs ValidateProofs IMapProofs HygieneProofs.
+From DI.proofs Require Import Basics SupersetSound SupersetExact SupersetComplete SupersetWf SubstituteProofs SubstituteSpec BoundsProofs DispatchProofs GroupProofs ParamProofs ParamAlpha RustSemProofs ValidateProofs IMapProofs HygieneProofs.
 
 (* ===================================================================================== *)
 (* C09 -- header generalisation is exact first-order matching                             *)
@@ -121,6 +121,21 @@ Theorem C10_roundtrip_of_reported : forall a b s bounded trait_,
   apply s rb = bounded /\ apply s rt = trait_.
 Proof. exact sup_then_roundtrip. Qed.
 Print Assumptions C10_roundtrip_of_reported.
+
+(* the reverse-map implementation computes exactly the specified enumeration: at every node
+   that is a parameter's value one result per parameter bound to it (plus the identity-mapped
+   parameter the node spells, fix F25), products over children, nothing else *)
+Theorem C10_exact_enumeration : forall s bounded trait_,
+  subst_key s bounded trait_ = spec_key s bounded trait_.
+Proof. exact subst_key_is_spec. Qed.
+Print Assumptions C10_exact_enumeration.
+
+(* F25: for (T => T, U => T) the bound `T: D` is re-expressed both as `T: D` and as `U: D` *)
+Example C10_identity_param_is_a_value :
+  subst_key [(pid "0", VIdentity); (pid "1", VType (tP "0"))] (tP "0") (path1 "D" anone)
+  = [(tP "1", path1 "D" anone); (tP "0", path1 "D" anone)].
+Proof. vm_compute. reflexivity. Qed.
+Print Assumptions C10_identity_param_is_a_value.
 
 (* non-vacuity: (_ŠČ0, _ŠČ1) over (Vec<_ŠČ0>, Vec<_ŠČ0>), key Option<Vec<_ŠČ0>>: D<Vec<_ŠČ0>> *)
 Example C10_nonvacuous :
